@@ -309,4 +309,72 @@ def suite_direct(ctx):
     return s
 
 
-SUITES = [suite_hist, suite_shape, suite_ctx, suite_direct]
+def suite_two_clients(ctx):
+    """two client objects in one process: what one of them is in the middle of (a suppress block, a payload override, adopted session timing,
+    changed configuration) never shows in the other one's frames or outcome"""
+    from .. import clientlib as cl, entries
+    s = Suite('two_clients')
+    rng = ctx.rng
+    calls = entries.default_calls()
+    seen, sel = set(), []
+    for c in calls:
+        if c.name not in seen:
+            seen.add(c.name)
+            sel.append(c)
+    if not ctx.thorough:
+        sel = rng.sample(sel, 25)
+    states = ['suppress', 'suppress-wait-nrc', 'override-literal', 'override-callable', 'adopted-timing', 'set_config', 'failed-call']
+    for c in sel:
+        def one(conn, client):
+            st = {'n': 0}
+
+            def responder(p, st=st):
+                st['n'] += 1
+                return [(1, entries.good_reply(p, c, client.config))]
+            conn.responder = responder
+            return cl.observe(conn, lambda: c.invoke(client))
+        cfg = cl.Cfg(rt=3000, p2=1000, p2s=2000)
+        lone, lconn = cl.make_client(cfg, extra=c.config())
+        base = one(lconn, lone)
+        for state in states:
+            for created in ('before', 'after'):
+                a, aconn = cl.make_client(cfg)
+                if created == 'before':
+                    b, bconn = cl.make_client(cfg, extra=c.config())
+                cms = []
+                if state.startswith('suppress'):
+                    cms.append(a.suppress_positive_response(wait_nrc=state.endswith('nrc')))
+                elif state == 'override-literal':
+                    cms.append(a.payload_override(b'\x11\x22'))
+                elif state == 'override-callable':
+                    cms.append(a.payload_override(lambda p: p + b'\xee'))
+                elif state == 'adopted-timing':
+                    aconn.responder = lambda p: [(1, bytes([0x50, p[1], 0x00, 0x07, 0x00, 0x09]))]
+                    a.change_session(3)
+                elif state == 'set_config':
+                    a.set_configs({'exception_on_negative_response': False, 'tolerate_zero_padding': False, 'p2_timeout': 0.001, 'request_timeout': 0.002, 'standard_version': 2006})
+                else:
+                    aconn.responder = lambda p: []
+                    try:
+                        a.tester_present()
+                    except Exception:  # noqa
+                        pass
+                for cm in cms:
+                    cm.__enter__()
+                try:
+                    if created == 'after':
+                        b, bconn = cl.make_client(cfg, extra=c.config())
+                    got = one(bconn, b)
+                finally:
+                    for cm in reversed(cms):
+                        cm.__exit__(None, None, None)
+                s.evaluations += 1
+                s.distinct.add('%s|%s|%s' % (c.name, state, created))
+                s.count(state)
+                if got != base:
+                    s.fail({'site': c.name, 'call': c.desc(), 'input': 'another client object is in state %r (this client created %s that)' % (state, created),
+                            'observed': got, 'required': 'as when it is the only client: ' + base})
+    return s
+
+
+SUITES = [suite_hist, suite_shape, suite_ctx, suite_direct, suite_two_clients]
